@@ -15,10 +15,10 @@ RULE = ("E-INPUT: (a) every label multiset (13 positions x widths {1,4,20}) up t
         "layerWidth x density x nodeSpacing x stubWidth x algorithm (540 option sets) through the real "
         "Distributor.distribute, structural invariant (conservation, contiguous layers, complete stub chains with "
         "parent/child links, payload, stub width, single-layer and capacity clauses); (b) the C01 layout scope through "
-        "Force.compute() + getLayers() + layerIndex. Non-trivial: >= 2 layers produced.")
+        "Force.compute() + getLayers() + layerIndex; (c) every multiset of 3 (thorough 4) labels over 12 letters distributed with every bounded option set, the laid-out labels cloned (Node.clone) and the clones distributed again with 3 other option sets: both layerings must satisfy the invariant on their own. Non-trivial: >= 2 layers produced.")
 ASSUMPTIONS = ["cases with |required - budget| < 1e-9 are judged only when density*layerWidth is exact in binary (an exact fit fits); otherwise counted, not judged",
                "trailing empty layers from algorithm 'simple' are not flagged (not forbidden by the statement)"]
-REQUIRED_COUNTERS = ("dist_multi_layer", "engine_cases", "dist_three_or_more_layers", "edge_cases")
+REQUIRED_COUNTERS = ("dist_multi_layer", "engine_cases", "dist_three_or_more_layers", "edge_cases", "clone_redistributions_of_multi_layer")
 
 POS13 = [x / 2 for x in range(13)]
 ALPHA = [(p, w) for p in POS13 for w in (1, 4, 20)]
@@ -50,6 +50,10 @@ def plan(tier, seed):
         shards.append({"kind": "deep", "n": n})
     # boundary values: required width = budget x (1 +- eps) for eps from 1e-5 to 5e-3 (the split decision is a threshold test)
     shards.append({"kind": "edge"})
+    # the caller clones laid-out labels and distributes the clones again with other options
+    for n in ((3,) if tier == "quick" else (3, 4)):
+        for r in range(8):
+            shards.append({"kind": "clones", "n": n, "mod": 8, "rem": r})
     # seeded slice: shifted positions, another wide label
     shards.append({"kind": "dist", "alpha": "S", "nmax": 2, "opts": "full", "mod": 1, "rem": 0, "seed": seed})
     for s in layout.plan_layout(tier, seed):
@@ -161,6 +165,32 @@ def check_distribution(labels, o):
     return None, None, nl, amb
 
 
+def check_redistribution(labels, o_first, o_second):
+    """Labels are distributed once, the caller clones the laid-out labels (Node.clone) and distributes the clones with
+    other options: the second layering must satisfy the structural invariant on its own (no items from the first one)."""
+    from labella.distributor import Distributor
+    from labella.node import Node
+    nodes = [Node(p, w, data=("d", i)) for i, (p, w) in enumerate(labels)]
+    try:
+        first = Distributor(dict(o_first)).distribute(nodes)
+        clones = [n.clone() for n in nodes]
+        layers = [list(l) for l in Distributor(dict(o_second)).distribute(clones)]
+    except Exception as e:
+        return "EXC:" + type(e).__name__, "distribute / clone / distribute raised %r" % (e,), 0
+    while layers and not layers[-1]:
+        layers.pop()
+    bad = check_structure(layers, clones, o_second["stubWidth"])
+    if bad:
+        return bad[0] + ":clones", "clones of labels laid out with %r, distributed with %r: %s" % (o_first, o_second, bad[1]), len(first)
+    first = [list(l) for l in first]
+    while first and not first[-1]:
+        first.pop()
+    bad = check_structure(first, nodes, o_first["stubWidth"])
+    if bad:
+        return bad[0] + ":after-clones", "the first layering after its labels were cloned and the clones laid out: %s" % bad[1], len(first)
+    return None, None, len(first)
+
+
 def run_shard(shard):
     if shard.get("engine"):
         acc = layout.run_layout_shard(ID, shard)
@@ -193,6 +223,27 @@ def run_shard(shard):
                                     if key:
                                         acc.violation({"labels": labels, "dist_opts": o}, key, reason, order=(40, n, eps))
         acc.sample({"labels": labels, "dist_opts": o})
+        return acc
+    if shard["kind"] == "clones":
+        narrow = [o for o in OPTS if o["layerWidth"] is not None and o["algorithm"] != "none"]
+        wide = [dict(layerWidth=1000, density=0.85, nodeSpacing=3, stubWidth=1, algorithm="overlap"),
+                dict(layerWidth=None, density=0.85, nodeSpacing=3, stubWidth=2, algorithm="overlap"),
+                dict(layerWidth=12, density=0.5, nodeSpacing=0, stubWidth=1, algorithm="simple")]
+        for ms in itertools.combinations_with_replacement(ALPHA12, shard["n"]):
+            labels = list(ms)
+            acc.states += 1
+            for oi, o1 in enumerate(narrow[shard["rem"]::shard["mod"]]):
+                for wi, o2 in enumerate(wide):
+                    key, reason, nl = check_redistribution(labels, o1, o2)
+                    acc.evals += 1
+                    acc.trans += 1
+                    acc.counters["clone_redistributions"] += 1
+                    if nl > 1:
+                        acc.nontriv += 1
+                        acc.counters["clone_redistributions_of_multi_layer"] += 1
+                    if key:
+                        acc.violation({"labels": labels, "dist_opts": o1, "then": o2}, key, reason, order=(60, len(labels), oi, wi))
+        acc.sample({"labels": labels, "dist_opts": o1, "then": o2})
         return acc
     if shard["kind"] == "deep":
         n = shard["n"]
@@ -239,6 +290,9 @@ def run_shard(shard):
 
 def replay(case):
     labels = [tuple(x) for x in case["labels"]]
+    if "then" in case:
+        key, reason, _ = check_redistribution(labels, case["dist_opts"], case["then"])
+        return (key, reason) if key else None
     if "dist_opts" in case:
         key, reason, _, _ = check_distribution(labels, case["dist_opts"])
         return (key, reason) if key else None
